@@ -330,6 +330,14 @@ class ModGen:
             else:
                 members.append([sub[0], ["bun", self.bun_of_def(sub[1])]])
         self.feats.add("anon_bundle")
+        if len(members) > 1 and d.bool(50):
+            # members are matched by name: written in another order than the Bundle declares them
+            pool, members = list(members), []
+            while pool:
+                x = d.choice(pool)
+                pool.remove(x)
+                members.append(x)
+            self.feats.add("anon_bundle_members_reordered")
         e = ["anon", members]
         if depth == 0 and d.bool(40):
             e.append("dict")
